@@ -23,6 +23,9 @@ func lookupFlow[T any](urlTree *URLTree[T], url string) lookupFlowNodeResult[T] 
 	currentNode := urlTree.Root
 	flows := []T{}
 	index := 0
+	// false once a URL part could not be followed in the tree: the node reached is then an
+	// ancestor of the URL, not the URL itself
+	fullyMatched := true
 
 	var part urlPart
 	for index, part = range splitURL {
@@ -44,12 +47,14 @@ func lookupFlow[T any](urlTree *URLTree[T], url string) lookupFlowNodeResult[T] 
 			continue
 		}
 
+		fullyMatched = false
 		break
 	}
 
-	if index == lookUpLength && currentNode.hasValue() && currentNode.WildcardChild == nil {
+	if fullyMatched && index == lookUpLength && currentNode.hasValue() {
 		flows = append(flows, *currentNode.Value)
-	} else if index == lookUpLength && part.IsPartOfHost &&
+	}
+	if fullyMatched && index == lookUpLength && part.IsPartOfHost &&
 		currentNode.WildcardChild != nil && currentNode.WildcardChild.hasValue() {
 		// case where url is host without path and filter ends with a wildcard, for example:
 		// url: "host.com", filter: "host.com/*"
